@@ -336,7 +336,39 @@ func vpEvent(kind string, args ...any) {
 	vpR.out.Events = append(vpR.out.Events, fmt.Sprintf("%s(%s)@%d", kind, strings.Join(parts, ","), int64(time.Since(vpR.start))))
 	vpR.mu.Unlock()
 }
-func vpSite() string { return "" }
+// vpSite: library functions on the calling goroutine's stack, outermost first (same shape as the executor's)
+func vpSite() string {
+	pcs := make([]uintptr, 64)
+	n := runtime.Callers(2, pcs)
+	frames := runtime.CallersFrames(pcs[:n])
+	var names []string
+	for {
+		fr, more := frames.Next()
+		fn := fr.Function
+		if i := strings.LastIndex(fn, "/leader."); i >= 0 {
+			fn = fn[i+len("/leader."):]
+			if strings.HasPrefix(fn, "(*kvElection).") || strings.HasPrefix(fn, "(*disconnectHandler).") || strings.HasPrefix(fn, "(*natsConnectionMonitor).") {
+				fn = fn[strings.Index(fn, ").")+2:]
+				if j := strings.Index(fn, ".func"); j >= 0 {
+					fn = fn[:j] + "$"
+				}
+				if j := strings.Index(fn, ".gowrap"); j >= 0 {
+					fn = fn[:j] + "$"
+				}
+				if len(names) == 0 || names[len(names)-1] != fn {
+					names = append(names, fn)
+				}
+			}
+		}
+		if !more {
+			break
+		}
+	}
+	for i, j := 0, len(names)-1; i < j; i, j = i+1, j-1 {
+		names[i], names[j] = names[j], names[i]
+	}
+	return strings.Join(names, ">")
+}
 func vpEndPath(why string) {
 	vpR.mu.Lock()
 	vpR.out.Notes = append(vpR.out.Notes, "budget end: "+why)
